@@ -1572,9 +1572,81 @@ def units(tier, seed):
   us.sort(key=lambda u: (-1 if u.get('api') == 'both' else weight[u['sec']],
                          -max(u.get('Ts', [u.get('T', 0)]))))
   us.append(dict(sec='masks'))
+  us.append(dict(sec='qknorm'))
   for i, u in enumerate(us):
     u['i'] = i
   return us
+
+
+def _run_qknorm(cx, unit):
+  """normalize_qk=True: queries and keys go through their OWN LayerNorm (no bias, scale per
+  head-dim entry) before the dot product. Linen and NNX with the same parameters (the two scale
+  vectors differ) against the float64 reference, for H x mask x self / cross attention."""
+  import numpy as np
+  import jax.numpy as jnp
+  import flax.linen as nn
+  from flax import nnx
+  res = cx.res
+  F, hd, O, T = 3, 2, 2, 3
+  eps = 1e-6
+
+  def ln(x, scale):
+    x = np.asarray(x, np.float64)
+    mu = x.mean(-1, keepdims=True)
+    var = ((x - mu) ** 2).mean(-1, keepdims=True)
+    return (x - mu) / np.sqrt(var + eps) * np.asarray(scale, np.float64)
+
+  for H in (1, 2):
+    for salt in (0, 1):
+      P = _mha_params(F, H, hd, O, salt, True)
+      sq = np.asarray([1.5, -0.5], np.float32) + salt
+      sk = np.asarray([0.25, 2.0], np.float32) - salt
+      tree = _mha_linen_tree(P)
+      tree['query_ln'] = {'scale': jnp.asarray(sq)}
+      tree['key_ln'] = {'scale': jnp.asarray(sk)}
+      lm = nn.MultiHeadDotProductAttention(num_heads=H, qkv_features=H * hd, out_features=O,
+                                           normalize_qk=True)
+      nm = nnx.MultiHeadAttention(H, F, H * hd, O, normalize_qk=True, decode=False,
+                                  rngs=nnx.Rngs(0))
+      for name, w, b in (('query', 'Wq', 'bq'), ('key', 'Wk', 'bk'), ('value', 'Wv', 'bv'),
+                         ('out', 'Wo', 'bo')):
+        getattr(nm, name).kernel.value = jnp.asarray(P[w])
+        getattr(nm, name).bias.value = jnp.asarray(P[b])
+      nm.query_ln.scale.value = jnp.asarray(sq)
+      nm.key_ln.scale.value = jnp.asarray(sk)
+      xq = R.fill('xq', (T, F), salt)
+      xkv = R.fill('xk', (T, F), salt + 3)
+      for form, (a, b_) in (('self', (xq, xq)), ('cross', (xq, xkv))):
+        for mname, grid in (('none', None), ('causal', R.causal_grid(T))):
+          cfg = f'qknorm H{H} salt{salt} {form} {mname}'
+          cx.ev(2)
+
+          def proj(x, W, bb):
+            return np.einsum('tf,fhd->thd', np.asarray(x, np.float64), np.asarray(W, np.float64)) \
+                + np.asarray(bb, np.float64)
+          q = ln(proj(a, P['Wq'], P['bq']), sq)
+          k = ln(proj(b_, P['Wk'], P['bk']), sk)
+          v = proj(b_, P['Wv'], P['bv'])
+          o, _, _ = R.attention(q, k, v, None, None if grid is None else grid[None])
+          ref = np.einsum('thd,hdo->to', o, np.asarray(P['Wo'], np.float64)) + np.asarray(P['bo'], np.float64)
+          mask = None if grid is None else jnp.asarray(grid)[None]
+          try:
+            yl = lm.apply({'params': tree}, jnp.asarray(a), jnp.asarray(b_), mask=mask)
+            yn = nm(jnp.asarray(a), jnp.asarray(b_), mask=mask, decode=False)
+          except Exception as e:  # noqa
+            core.violation(res, f'qknorm-raises|{cfg}', f'{type(e).__name__}: {e}'[:300], dict(cfg=cfg))
+            continue
+          for api, y in (('linen', yl), ('nnx', yn)):
+            err = float(np.max(np.abs(np.asarray(y, np.float64) - ref)))
+            if not err < 1e-4:
+              core.violation(res, f'qknorm|{api}|{cfg}',
+                             f'{api} attention with normalize_qk differs from the reference in which '
+                             f'queries and keys are normalised by their own LayerNorm (err {err:.3g})',
+                             dict(cfg=cfg, api=api), observed=np.asarray(y).tolist(),
+                             expected=ref.tolist())
+          cx.out('qknorm:ok')
+          cx.nontrivial('qknorm', cfg)
+  cx.sample(section='qknorm')
 
 
 def _run_masks(cx, unit):
@@ -1644,5 +1716,5 @@ def _run_masks(cx, unit):
 def run_unit(unit):
   cx = _Ctx(unit)
   {'fn': _run_fn, 'mha': _run_mha, 'dec': _run_dec, 'rnn': _run_rnn,
-   'cell': _run_cell, 'masks': _run_masks}[unit['sec']](cx, unit)
+   'cell': _run_cell, 'masks': _run_masks, 'qknorm': _run_qknorm}[unit['sec']](cx, unit)
   return cx.res
